@@ -18,6 +18,8 @@ pub struct BatchSpec<'a> {
     /// optional file in which each worker publishes the seed it is running (hang containment)
     pub inflight: Option<&'a crate::supervise::Inflight>,
     pub needs_fault_effect: bool,
+    /// recognises violations listed in known-findings.txt (returns the finding id); such runs do not stop the search
+    pub known: &'a (dyn Fn(&str, &Violation) -> Option<String> + Sync),
 }
 
 #[derive(Default, Clone)]
@@ -39,6 +41,8 @@ pub struct BatchResult {
     /// (run index, run seed, violation)
     pub violations: Vec<(u64, u64, Violation)>,
     pub harness_errors: Vec<(u64, Violation)>,
+    /// known finding id -> (hits, first run index, its seed, its violation)
+    pub known_hits: BTreeMap<String, (u64, u64, u64, Violation)>,
     pub samples: Vec<serde_json::Value>,
     /// slowest run (seed, milliseconds) — diagnostics only, never part of a verdict
     pub slowest: (u64, u64),
@@ -129,6 +133,12 @@ pub fn run_batch(spec: &BatchSpec) -> BatchResult {
                             if v.property == "HARNESS" {
                                 harness_err.store(true, Ordering::Relaxed);
                                 local.harness_errors.push((seed, v));
+                            } else if let Some(id) = (spec.known)(spec.world.name(), &v) {
+                                let e = local.known_hits.entry(id).or_insert((0, i, seed, v.clone()));
+                                e.0 += 1;
+                                if i < e.1 {
+                                    *e = (e.0, i, seed, v);
+                                }
                             } else {
                                 stop_at.fetch_min(i, Ordering::Relaxed);
                                 local.violations.push((i, seed, v));
@@ -162,6 +172,13 @@ pub fn run_batch(spec: &BatchSpec) -> BatchResult {
                     }
                     a.violations.extend(local.violations);
                     a.harness_errors.extend(local.harness_errors);
+                    for (id, (n, i, seed, v)) in local.known_hits {
+                        let e = a.known_hits.entry(id).or_insert((0, i, seed, v.clone()));
+                        e.0 += n;
+                        if i < e.1 {
+                            *e = (e.0, i, seed, v);
+                        }
+                    }
                     if a.samples.len() < 3 {
                         a.samples.extend(local.samples);
                     }
